@@ -5,7 +5,7 @@ pairing in canonicalisation. Anything about the represented vector / Schmidt val
 and not decided."""
 import ast
 
-from ..core import (AnalysisError, body_nodes, call_name, dotted, is_self_attr, key_text, kwarg,
+from ..core import (AnalysisError, depends_on, body_nodes, call_name, dotted, is_self_attr, key_text, kwarg,
                     local_defs, names_in, params, parent, stmts_of, unparse)
 from ..pattern import find, pmatch
 from .c09 import check_form_flow
@@ -253,6 +253,27 @@ def check_segment_order(prog, rep):
     return n
 
 
+def check_params_reach_returns(prog, rep):
+    """get_theta: every value it returns depends on the requested exponents formL / formR (the
+    single-site special case included) and on the cutoff"""
+    m = prog.module(MPS)
+    f = m.func('MPS.get_theta')
+    defs = local_defs(f)
+    n = 0
+    for r in [st for st in ast.walk(f) if isinstance(st, ast.Return) and st.value is not None]:
+        for p_ in ('formL', 'formR'):
+            n += 1
+            dep = depends_on(f, r.value, [p_], defs)
+            rep.instance('PARAM-dropped', {'function': 'MPS.get_theta', 'return': key_text(r)[:60],
+                                           'param': p_, 'depends': dep})
+            if not dep:
+                rep.violation('PARAM-dropped', m, 'MPS.get_theta', 'param-dropped:' + p_,
+                              '`%s` does not depend on `%s`: the documented result is '
+                              's**formL G_i .. s**formR for every n, but this exit returns a '
+                              'fixed form' % (key_text(r)[:70], p_), r.lineno)
+    return n
+
+
 def check_perm_direction(prog, rep):
     """An index list built from LegPipe.map_incoming_flat holds DESTINATION positions (where each
     incoming combination lands in the pipe). Re-ordering values given in the incoming order is a
@@ -303,6 +324,7 @@ def run(prog, rep, tier):
              'entanglement_entropy')
     rep.rule('SEGMENT-order', 'accumulated segment boundaries: the old left matrix is the left '
              'operand, the old right matrix the right operand of the composition')
+    rep.rule('PARAM-dropped', 'every return of get_theta depends on formL and formR')
     rep.rule('PERM-direction', 'destination index lists from map_incoming_flat are scattered or '
              'inverted, never gathered with')
     n = check_isometry_forms(prog, rep)
@@ -310,6 +332,8 @@ def run(prog, rep, tier):
     check_canonical_form(prog, rep)
     if check_segment_order(prog, rep) < 2:
         raise AnalysisError('SEGMENT-order: contractions with segment boundaries not found')
+    if check_params_reach_returns(prog, rep) < 4:
+        raise AnalysisError('PARAM-dropped: returns of MPS.get_theta not found')
     if check_perm_direction(prog, rep) < 1:
         raise AnalysisError('PERM-direction: use of the map_incoming_flat index list not found')
     rep.floor('FORM-isometry', 8)
